@@ -352,6 +352,48 @@ def tie_b_scan(res, workdir):
     return ok
 
 
+def tie_b_generic(res, workdir, key, emit_name, kern, bridge, what):
+    """Shared driver of the PySem-based Tie B obligations: translate (fail-closed: unavailable, no alarm), type-check the generated
+    file, compile the bridge file against it (failure: broken proof obligation)."""
+    from . import translate, translate_req
+    gen = os.path.join(workdir, 'gen_' + key)
+    os.makedirs(gen, exist_ok=True)
+    note = 'tie_B_' + key
+    try:
+        getattr(translate_req, emit_name)(os.path.join(gen, kern))
+    except translate.TranslateError as e:
+        res.notes[note] = f'unavailable: {e}'
+        return False
+    except Exception as e:
+        res.notes[note] = f'unavailable: {e!r}'
+        return False
+    xq = [(gen, 'UbxGen')]
+    rc, out = coqc(os.path.join(gen, kern), gen, extra_q=xq)
+    if rc:
+        res.notes[note] = f'unavailable: generated {kern} does not type-check: ' + out[-400:]
+        return False
+    dst = os.path.join(gen, bridge)
+    shutil.copy(os.path.join(COQ, 'bridge', bridge), dst)
+    rc, out = coqc(dst, gen, extra_q=xq)
+    ok = rc == 0
+    res.oblige(f'Tie B {key}: bridge lemmas {bridge} ({what} translated to Gallina = model)', ok, out)
+    if ok:
+        bad = [a for a in parse_assumptions(out) if not a.startswith('Closed under')]
+        if bad:
+            raise MachineryFault('bridge lemma depends on axioms: ' + str(bad[:2]))
+        res.notes[note] = f'{what} regenerated from source and proved equal to the model'
+    else:
+        res.notes[note] = 'bridge lemmas FAILED'
+        res.violation(f'Tie B: {what} translated from the current source is no longer provably equal to the model',
+                      {'property': res.prop, 'broken': 'coq/bridge/' + bridge, 'coqc_output': out[-2500:]}, 'bridge-' + key, False)
+    return ok
+
+
+def tie_b_cfgobj(res, workdir):
+    """Tie B for the configuration item codec: CfgKeyData.pack/unpack (+ _pack_keyid, _pack_value, _unpack_value)."""
+    return tie_b_generic(res, workdir, 'cfgobj', 'emit_cfgobj_v', 'CfgKernels.v', 'BridgeCfgObj.v', 'CfgKeyData.pack/unpack')
+
+
 # ------------------------------------------------------------------ model driver
 def run_driver(lines, timeout=3600):
     """Evaluate command lines with the extracted model; returns list of output lines."""
